@@ -217,6 +217,9 @@ func TestVerifC15HttpExp(t *testing.T) {
 
 	n := 0
 	emit := func(st, raKind, raVal, bodyKind int) {
+		if st == 204 || st == 304 {
+			bodyKind = 0 // HTTP forbids a body on 204 / 304: the scripted server cannot send one
+		}
 		sc.mu.Lock()
 		sc.status, sc.raKind, sc.raVal, sc.bodyKind = st, raKind, raVal, bodyKind
 		n++
